@@ -7,5 +7,5 @@ Extraction "../ocaml/build/c05_model.ml"
   compare_attributes_no_order attr_ok
   write_tag_line write_entry_line read_tag_line read_entry_line
   name_ok desc_ok wiki_attr_ok row_free_of_reserved
-  tsv_write_tag_row tsv_read_row tsv_desc_ok
+  tsv_write_tag_row tsv_write_entry_row tsv_read_row tsv_desc_ok xml_read_desc desc_text_ok
   process_schema.
